@@ -330,7 +330,8 @@ Inductive op :=
 | OOrdinal (n : N)
 | OReplaceStr (a to w : list N) | OPrintable (a : list N) | OAppend (a b : list N) | OPlus (a b : list N)
 | OCopyBuf (a : list N) (dn : nat)
-| OFormat (a b : list N).
+| OFormat (a b : list N)
+| OAtoI (a : list N) | OAtoU (a : list N).
 
 Inductive oval := VZ (z : Z) | VNone | VB (l : list N) | VL (l : list (list N)) | VErr.
 Record obs := { o_val : oval; o_ref : bool; o_paired : bool }.
@@ -354,6 +355,9 @@ Definition valid (o : op) : bool :=
   | OPrintable a => nonul a
   | OAppend a b | OPlus a b | OFormat a b => nonul a && nonul b
   | OCopyBuf a dn => nonul a
+  (* the digit string must fit the result type (same contract as atoi / strtoul); at most 9 digits always do *)
+  | OAtoI a => nonul a && t_fits_int a
+  | OAtoU a => nonul a && t_fits_unsigned a
   end.
 
 Definition vz (r : res Z) : oval := match r with Ok z => VZ z | _ => VErr end.
@@ -393,6 +397,8 @@ Definition eval (o : op) : oval :=
   | OPlus a b => vstr (plus_m (cs a) (cs b))
   | OCopyBuf a dn => match copyToBuffer_m (cs a) (fresh dn) dn with Ok d => VB d | _ => VErr end
   | OFormat a b => vstr (format_m (a ++ b))
+  | OAtoI a => vz (AtoI (cs a))
+  | OAtoU a => vz (AtoU (cs a))
   end.
 (* allocator pairing verdict of the modelled event log (C13_Alloc.v); operations whose buffers all belong to SimpleString
    objects are covered by the theorem alloc_pairing over the buffer primitives *)
@@ -427,6 +433,8 @@ Definition expected (o : op) : oval :=
   | OPrintable a => VB (t_printable a)
   | OAppend a b | OPlus a b | OFormat a b => VB (a ++ b)
   | OCopyBuf a dn => VB (t_copy_out a dn)
+  | OAtoI a => VZ (t_atoi a)
+  | OAtoU a => VZ (t_atou a)
   end.
 Fixpoint lbytes_eqb (x y : list (list N)) : bool :=
   match x, y with [], [] => true | a :: x', b :: y' => bytes_eqb a b && lbytes_eqb x' y' | _, _ => false end.
